@@ -92,6 +92,19 @@ def check(node, plain, cm, d=0, want_mono=True, gen_tag='C03'):
         out.append(('C03', 'unexpected text %r after the expected output (non-blank char #%d); '
                     'output %r' % (text[i:i + 20], i, plain[:160])))
         dead = True
+    if dead:
+        # the text differs from the expected one (C03's subject); C02 can still be judged
+        # character-wise: an output character that maps to a source offset holding ANOTHER
+        # character, outside every generating construct, is a copy carried to a wrong offset
+        gens = [(e[1], e[2]) for e in events if e[0] == 'G'] + list(node.spans)
+        specs = set(e[1] for e in events if e[0] == 'S') | set(node.sws)
+        for k, c, p in ns:
+            if 0 <= p < n and src[p] != c and p not in specs and c != MARK[0] and not any(
+                    a <= p < b for a, b in gens) and MARK not in plain:
+                out.append(('C02', 'character %r (output index %d) is mapped to source offset '
+                            '%d, where the source has %r; output %r' % (c, k, p, src[p],
+                                                                       plain[:80])))
+                break
     # blanks: copy of a source blank, image of a special sequence, or inside a construct
     if not dead:
         for k, c in enumerate(plain):
